@@ -105,7 +105,7 @@ FamRaw    == {<<"raw_pct", Int("1")>>, <<"raw_pct2", Int("1")>>, <<"raw_pct", St
 FamMixT   == FamSlice2 \cup {<<"getattr", Str("name")>>, <<"getattr", Str("tag")>>, <<"strq", Int("0")>>, <<"raw_where", Int("0")>>}
 \* the smaller alphabets of the quick tier
 FamQB == {<<"slice", Int("1")>>, <<"slice", Int("2")>>, <<"getattr", Str("tag")>>}
-FamQT == {<<"cmp", Int("1")>>, <<"cmp", NoneV>>, <<"gt", Int("1")>>}
+FamQT == {<<"cmp", Int("1")>>, <<"cmp", NoneV>>, <<"cmp", Str("1")>>}
 FamQA == {<<"count", Int("0")>>, <<"count", Int("1")>>, <<"gt", Int("0")>>}
 FamQS == {<<"strq", Int("0")>>, <<"strq", Int("1")>>, <<"raw_where", Int("1")>>}
 FamQR == {<<"raw_pct", Int("1")>>, <<"raw_pct2", Int("1")>>, <<"raw_where", Int("1")>>, <<"raw_where", NoneV>>}
